@@ -1,4 +1,5 @@
 import BromeliaVerif.Gen.PsmGen
+import BromeliaVerif.Gen.MsgKinds
 import BromeliaVerif.Proofs.PsmRef
 import BromeliaVerif.Proofs.PsmGhost
 import BromeliaVerif.Proofs.PsmNorm
@@ -132,6 +133,35 @@ theorem code_answers_match_requests (V : Verd) (hV : Sound V) (role : Role) (evs
   have h2 : n.sendq = (run role evs).sendq := by have := congrArg Node.sendq he; exact this
   rw [h1, h2]
   exact ⟨(BV.C07.answers_match_requests role evs).1, BV.C07.no_answer_waits role evs⟩
+
+/-! ### the message-kind helpers of utils.py (what `has_recv_cer(self.msg)` … mean), translated on this run -/
+
+/-- the kind of a message, read off the R flag and the command code (RFC 6733: 257 CE, 280 DW, 282 DP) -/
+def kindOfHeader (isReq : Bool) (cmd : Nat) : Kind :=
+  if cmd = 257 then (if isReq then .cer else .cea)
+  else if cmd = 280 then (if isReq then .dwr else .dwa)
+  else if cmd = 282 then (if isReq then .dpr else .dpa)
+  else (if isReq then .appReq else .appAns)
+
+/-- each helper, as translated from the code, recognises exactly its kind — for every flag combination and command code -/
+theorem code_kinds_classify (r p : Bool) (c : Nat) :
+    BV.Gen.Kinds.isCer r p c = (kindOfHeader r c == .cer) ∧ BV.Gen.Kinds.isCea r p c = (kindOfHeader r c == .cea) ∧
+    BV.Gen.Kinds.isDwr r p c = (kindOfHeader r c == .dwr) ∧ BV.Gen.Kinds.isDwa r p c = (kindOfHeader r c == .dwa) ∧
+    BV.Gen.Kinds.isDpr r p c = (kindOfHeader r c == .dpr) ∧ BV.Gen.Kinds.isDpa r p c = (kindOfHeader r c == .dpa) ∧
+    BV.Gen.Kinds.isAnswer r p c = !r ∧ BV.Gen.Kinds.isRequest r p c = r := by
+  unfold BV.Gen.Kinds.isCer BV.Gen.Kinds.isCea BV.Gen.Kinds.isDwr BV.Gen.Kinds.isDwa BV.Gen.Kinds.isDpr BV.Gen.Kinds.isDpa
+    BV.Gen.Kinds.isAnswer BV.Gen.Kinds.isRequest kindOfHeader
+  by_cases h1 : c = 257 <;> by_cases h2 : c = 280 <;> by_cases h3 : c = 282 <;> cases r <;> cases p <;> simp_all
+
+/-- hence at most one of the six base-message helpers holds of any message: the order of the `elif` chain of `Open.run`
+over them does not matter, and a message is an answer iff it is not a request -/
+theorem code_kinds_exclusive (r p : Bool) (c : Nat) :
+    ([BV.Gen.Kinds.isCer r p c, BV.Gen.Kinds.isCea r p c, BV.Gen.Kinds.isDwr r p c, BV.Gen.Kinds.isDwa r p c,
+      BV.Gen.Kinds.isDpr r p c, BV.Gen.Kinds.isDpa r p c].filter id).length ≤ 1 ∧
+    BV.Gen.Kinds.isAnswer r p c = !(BV.Gen.Kinds.isRequest r p c) := by
+  obtain ⟨a, b, d, e, f, g, h, i⟩ := code_kinds_classify r p c
+  rw [a, b, d, e, f, g, h, i]
+  cases hk : kindOfHeader r c <;> simp
 
 /-! non-vacuity: a sound verdict function exists, and a concrete execution of the translated code opens -/
 def V0 : Verd := fun _ m => m.valid
